@@ -358,6 +358,9 @@ func GenFeed(t *rapid.T, o GenOpts) (*Feed, GenInfo) {
 		}
 		if kind == 1 || kind == 2 {
 			n := rapid.IntRange(1, 4).Draw(t, "nExceptions")
+			if o.ServiceMix && rapid.IntRange(0, 19).Draw(t, "manyExceptions") == 0 {
+				n = rapid.SampledFrom([]int{9, 17, 33, 70}).Draw(t, "manyExceptionsN")
+			}
 			valid := false
 			for j := 0; j < n; j++ {
 				dt, mv := genDate("exDate")
